@@ -32,6 +32,10 @@ pub struct SeqParams {
     /// VACUUM is part of the alphabet also while sessions are open
     #[serde(default)]
     pub vacuum_with_sessions: bool,
+    /// C11 at SQL level: at the end of every history without an open session and without invisible relations
+    /// (rolled-back CREATE, DROP not yet vacuumed) take the whole-file page census
+    #[serde(default)]
+    pub census_end: bool,
 }
 
 pub fn enabled(m: &Model, op: &Op) -> bool {
@@ -366,6 +370,17 @@ pub fn run_once(p: &SeqParams, hist: &[usize]) -> StepReport {
         }
     }
     // end-of-history oracles
+    if p.census_end && ex.model.sessions.is_empty() && ex.model.no_invisible_relations() {
+        match ex.db.page_census() {
+            Ok(problems) => {
+                ex.count("page_censuses");
+                if let Some(first) = problems.first() {
+                    return judge_divergence(&mut ex, rep, format!("page census at the end of the history: {first} ({} problems)", problems.len()), finish);
+                }
+            }
+            Err(e) => return judge_divergence(&mut ex, rep, format!("page census failed: {e}"), finish),
+        }
+    }
     if ex.model.pending_update.is_empty() && ex.model.pending_reinsert.is_empty() {
         if p.audit_end {
             if let StepVerdict::Diverged(d) = ex.step(&Op::Audit, rcfg) {
@@ -428,6 +443,16 @@ fn judge_divergence(ex: &mut Exec, mut rep: StepReport, d: String, finish: impl 
     if d.contains("Attempted to insert with overflow on a btreepage") && ex.model.enabled_hazards.contains(divider) {
         rep.status = "known".into();
         rep.findings = vec![divider.to_string()];
+        rep.detail = format!("{d}\n{}", ex.log.join("\n"));
+        rep.stop = true;
+        finish(ex, &mut rep);
+        return rep;
+    }
+    // listed C05 finding: one log record carries the whole stored tuple before and after, and cannot exceed a log block
+    let big = "KT-log-record-exceeds-block";
+    if d.contains("exceeds maximum block capacity") && ex.model.enabled_hazards.contains(big) {
+        rep.status = "known".into();
+        rep.findings = vec![big.to_string()];
         rep.detail = format!("{d}\n{}", ex.log.join("\n"));
         rep.stop = true;
         finish(ex, &mut rep);
